@@ -17,12 +17,18 @@ def data32():
                      st.tuples(u64, u64, u64, u64).map(lambda a: b''.join(x.to_bytes(8, 'little') for x in a)))
 
 
+FILE_MAGICS = [bytes.fromhex(h) for h in ('0002aa55', '0003aa55', '55aa0200', '55aa0300', '001d0000', '001e0000', '00200000', '001c0000',
+                                            '0002aa5500000000', '0100000055aa0200')]
+
+
 def record64():
     """64 bytes: raw random or structured with boundary-biased fields"""
     structured = st.tuples(u64, data32(), u64, u32, u32, u64).map(
         lambda t: t[0].to_bytes(8, 'little') + t[1] + t[2].to_bytes(8, 'little') + t[3].to_bytes(4, 'little')
         + t[4].to_bytes(4, 'little') + t[5].to_bytes(8, 'little'))
-    return st.one_of(st.binary(min_size=64, max_size=64), structured)
+    # a record whose first bytes read like a file/chunk magic of the dump formats (a timestamp is any 64-bit word)
+    magic = st.tuples(st.sampled_from(FILE_MAGICS), st.binary(min_size=64, max_size=64)).map(lambda t: t[0] + t[1][len(t[0]):])
+    return st.one_of(st.binary(min_size=64, max_size=64), structured, structured, magic)
 
 
 name_alphabet = st.characters(min_codepoint=0x21, max_codepoint=0x7e)
